@@ -103,9 +103,9 @@ int main(int argc, char** argv) {
         GenCfg cfg; cfg.allow_vec = true; cfg.allow_apply = r.coin(40); cfg.max_depth = r.range(1, 3);
         ExprGen g(r, cfg);
         int ns = r.range(1, 3); Array<const ExprSymbol> a(ns); int tot = 0;
-        for (int i = 0; i < ns; i++) { Dim d = Dim::scalar(); switch (r.below(5)) { case 0: d = Dim::col_vec(r.range(2, 3)); break; case 1: d = Dim::row_vec(2); break; case 2: d = Dim::matrix(2, 2); break; default: break; }
+        for (int i = 0; i < ns; i++) { Dim d = Dim::scalar(); switch (r.below(6)) { case 0: d = Dim::col_vec(r.range(2, 3)); break; case 1: d = Dim::row_vec(2); break; case 2: d = Dim::matrix(2, 2); break; case 3: d = Dim::matrix(2, 3); break; default: break; }
           const ExprSymbol& s = ExprSymbol::new_(("y" + to_string(i)).c_str(), d); a.set_ref(i, s); g.syms.push_back(&s); tot += d.size(); }
-        int rows = 1, cols = 1; switch (r.below(4)) { case 0: rows = r.range(2, 3); break; case 1: cols = 2; break; case 2: rows = 2; cols = 2; break; default: break; }
+        int rows = 1, cols = 1; switch (r.below(5)) { case 0: rows = r.range(2, 3); break; case 1: cols = 2; break; case 2: rows = 2; cols = 2; break; case 3: rows = 2; cols = r.range(3, 5); break; default: break; }
         const ExprNode& e = g.gen(rows, cols, cfg.max_depth);
         string dag = dump_expr(e, a);
         Function f(a, e, "h");
